@@ -334,8 +334,10 @@ class Waiting(State):
         self._waiting_future = futures.Future()
 
     def interrupt(self, reason: Any) -> None:
-        # This will cause the future in execute() to raise the exception
-        self._waiting_future.set_exception(reason)
+        # This will cause the future in execute() to raise the exception, unless it is about to return already because
+        # the state was resumed or interrupted before, in which case ``Process.step`` deals with the pending request
+        if not self._waiting_future.done():
+            self._waiting_future.set_exception(reason)
 
     async def execute(self) -> State:  # type: ignore
         try:
